@@ -1,10 +1,17 @@
 import Hertz.Driver.Core
 import Hertz.Model.Route
+import Hertz.Model.RouteIter
 import Hertz.Spec.Route
 /-!
 Correspondence + spec handler for C06 (router dispatch).
 
 Line:  `rt n (method pattern)ⁿ m (method path)ᵐ | absⁿ (REJ i class | OK resultᵐ)`
+       `rtx mask n (method pattern)ⁿ m (method path)ᵐ | …` the same with engine options: mask bit 0 =
+       RedirectTrailingSlash OFF, bit 1 = HandleMethodNotAllowed, bit 2 = UseRawPath, bit 3 =
+       UnescapePathValues OFF, bit 4 = RemoveExtraSlash (`normPath` is then the `rPath` the engine routes on).
+The model that predicts the output is the ITERATIVE `find` (`Model/RouteIter.lean`: `Engine.serveIter`), status
+of a lookup without handler included (301/307/405/404/400); the recursive `find` (`Engine.serve`) the
+theorems speak about is recomputed too and must agree (`agree` below, part of the spec verdict).
 * `abs` is what `RouterGroup.calculateAbsolutePath` (i.e. `path.Join`, an external call) made of the
   pattern; the model takes it from the implementation and the spec checks that it is the pattern
   itself whenever the pattern is already clean;
@@ -152,8 +159,59 @@ def specAll (rs : List Spec.Route.Route) : List (Bytes × Bytes) → List (Bytes
 def nMatching (rs : List Spec.Route.Route) (m p : Bytes) : Nat :=
   (rs.filter (fun r => (r.matches m p).isSome)).length
 
-def handle : Handler
-  | "rt" :: n :: rest, impl => do
+def servedITok (np : String) : Iter.ServedI → List String
+  | .handler f => [np, "H", toString f.handlers, encHex f.fullPath, toString f.params.length] ++ pairsTok f.params
+  | .redirect c => [np, "N", toString c]
+  | .notAllowed => [np, "N", "405"]
+  | .notFound => [np, "N", "404"]
+  | .badRequest => [np, "N", "400"]
+  | .panic _ => [np, "P"]
+  | .outOfFuel => [np, "FUEL"]
+
+/-- recursive `serve` and iterative `serveIter` give the same handler / no handler -/
+def agree : Served → Iter.ServedI → Bool
+  | .handler f, .handler g => f == g
+  | .noRoute, .redirect _ => true
+  | .noRoute, .notAllowed => true
+  | .noRoute, .notFound => true
+  | .panic _, .panic _ => true
+  | _, _ => false
+
+/-- `trailingSlashURL` on the path -/
+def toggleSlash (p : Bytes) : Bytes :=
+  if p.length > 1 && p.getLast? == some 47 then p.dropLast else p ++ [47]
+
+/-- the property's predicate on one observed lookup, with engine options -/
+def specLookupX (o : Iter.Opts) (rs : List Spec.Route.Route) (m : Bytes) : Bytes × ImplRes → Bool
+  | (np, .h id fp ps) =>
+    match Spec.Route.select rs m np with
+    | none => false
+    | some (r, psRaw) =>
+      r.handler == id && fp == r.pattern && decide (Spec.Route.Selected rs m np r psRaw)
+        && ps == psRaw.map (fun kv => (kv.1, Iter.unescapeVal o.unescape kv.2))
+        && Spec.Route.instantiate (Spec.Route.parsePattern r.pattern) psRaw == np
+  | (np, .n st) =>
+    decide (Spec.Route.NoMatch rs m np) &&
+    (let other := rs.any (fun r => r.method != m && (r.matches r.method np).isSome)
+     if st == "301" || st == "307" then
+       o.redirectTrailingSlash && np != [47] && ((st == "301") == (m == Iter.mGET))
+     else if st == "405" then o.handleMethodNotAllowed && other
+     else if st == "404" then !(o.handleMethodNotAllowed && other)
+     else false)
+  | (_, .p) => false
+  | (_, .x) => true
+
+def specAllX (o : Iter.Opts) (rs : List Spec.Route.Route) : List (Bytes × Bytes) → List (Bytes × ImplRes) → Bool
+  | [], [] => true
+  | (m, _) :: ls, r :: rs' => specLookupX o rs m r && specAllX o rs ls rs'
+  | _, _ => false
+
+def optsOf (mask : Nat) : Iter.Opts :=
+  { redirectTrailingSlash := !mask.testBit 0, handleMethodNotAllowed := mask.testBit 1,
+    unescape := mask.testBit 2 && !mask.testBit 3 }
+
+def handleRt (opName : String) (mask : Nat) (n : String) (rest impl : List String) : Option Result := do
+    let o := optsOf mask
     let n := n.toNat!
     let (routes, rest) ← takeMP n rest
     let m ← rest.head?
@@ -166,7 +224,7 @@ def handle : Handler
     let cleanOk := (routes.zip abs).all (fun ((_, p), a) => !isClean p || a == p)
     let hasP := abs.any (·.contains 58)
     let hasA := abs.any (·.contains 42)
-    let base := "rt:" ++ sizeClass n ++ boolTok hasP ++ boolTok hasA
+    let base := opName ++ (if mask == 0 then "" else toString mask) ++ ":" ++ sizeClass n ++ (if n ≥ 17 then "W" else "") ++ boolTok hasP ++ boolTok hasA
     match addAll {} 0 regs with
     | .error (i, f) =>
       let implRuntime := implRest.getLast? == some "runtime"
@@ -181,24 +239,41 @@ def handle : Handler
         | none => none
         | some results =>
           let served := (lookups.zip results).map (fun ((meth, raw), (np, _)) =>
-            ((if np == raw then "=" else encHex np), e.serve meth np))
-          -- the status of a lookup without handler is not modelled: copy it
-          let outToks := (served.zip results).flatMap (fun ((np, s), (_, ir)) =>
-            match s, ir with
-            | .noRoute, .n st => [np, "N", st]
-            | _, .x => ["=", "X"]
-            | s, _ => servedTok np s)
+            ((if np == raw then "=" else encHex np), Iter.Engine.serveIter e o meth np, e.serve meth np))
+          let outToks := (served.zip results).flatMap (fun ((np, s, _), (_, ir)) =>
+            match ir with
+            | .x => ["=", "X"]
+            | _ => servedITok np s)
           let rs := canonical (mkRoutes 0 regs)
-          let spec := cleanOk && specAll rs lookups results
-          let hits := (served.filter (fun (_, s) => match s with | .handler _ => true | _ => false)).length
+          -- the recursive find (subject of the theorems) agrees with the iterative one (unescape off)
+          let agreeAll := o.unescape || served.all (fun (_, s, r) => agree r s)
+          let specOk := specAllX o rs lookups results
+          let spec := cleanOk && agreeAll && specOk
+          let hits := (served.filter (fun (_, s, _) => match s with | .handler _ => true | _ => false)).length
           -- hits that bound at least one parameter
-          let amb := (served.filter (fun (_, s) => match s with | .handler f => !f.params.isEmpty | _ => false)).length
+          let amb := (served.filter (fun (_, s, _) => match s with | .handler f => !f.params.isEmpty | _ => false)).length
+          let red := served.any (fun (_, s, _) => match s with | .redirect _ => true | _ => false)
+          let na := served.any (fun (_, s, _) => match s with | .notAllowed => true | _ => false)
+          -- redirects whose target (slash toggled) matches no route of the method: not part of the property, counted
+          let dead := (lookups.zip served).any (fun ((meth, _), (_, s, _)) => match s with
+            | .redirect _ => true | _ => false) &&
+            (lookups.zip results).any (fun ((meth, _), (np, ir)) => match ir with
+              | .n st => (st == "301" || st == "307") && (Spec.Route.select rs meth (toggleSlash np)).isNone | _ => false)
+          -- known finding: with UseRawPath+UnescapePathValues backtracking restores searchIndex by the
+          -- length of the UNESCAPED value; the model reproduces it, the spec does not accept it
+          let modelSame := outToks == resToks
           pure { out := absTok ++ "OK" :: outToks, spec := spec,
-                 specNote := "selected route = best matching pattern (literal > param > catch-all at first difference), params = matched substrings, fullPath = pattern, none matches => no handler",
-                 tag := base ++ ":ok:h" ++ sizeClass hits ++ "m" ++ sizeClass (m - hits) ++ "p" ++ sizeClass amb }
+                 specNote := "selected route = best matching pattern (literal > param > catch-all at first difference), params = matched substrings (unescaped when asked), fullPath = pattern, none matches => no handler, 301/307 only with RedirectTrailingSlash and path != /, 405 iff another method matches, else 404; iterative = recursive find",
+                 cls := if !spec && cleanOk && agreeAll && o.unescape && modelSame then "F-unescape-backtrack" else "",
+                 tag := base ++ ":ok:h" ++ sizeClass hits ++ "m" ++ sizeClass (m - hits) ++ "p" ++ sizeClass amb
+                          ++ (if red then "r" else "") ++ (if na then "a" else "") ++ (if dead then "d" else "") }
       | _ =>
         -- the implementation refused a set the model accepts
         pure { out := absTok ++ ["OK"], spec := cleanOk, tag := base ++ ":ok:implrej" }
+
+def handle : Handler
+  | "rt" :: n :: rest, impl => handleRt "rt" 0 n rest impl
+  | "rtx" :: mask :: n :: rest, impl => handleRt "rtx" mask.toNat! n rest impl
   | _, _ => none
 
 end Hertz.Driver.C06
